@@ -3229,6 +3229,7 @@ func (b *Bundle) Compile(log logger.Log, timer *helpers.Timer, mangleCache map[s
 		// the duplicate is just silently filtered out. This can happen with the
 		// "file" loader, for example.
 		outputFileMap := make(map[string]graph.OutputFile)
+		exactAbsPaths := make(map[string]bool)
 		end := 0
 		for _, outputFile := range outputFiles {
 			absPathKey := canonicalFileSystemPathForWindows(outputFile.AbsPath)
@@ -3237,6 +3238,7 @@ func (b *Bundle) Compile(log logger.Log, timer *helpers.Timer, mangleCache map[s
 			// If this isn't a duplicate, keep the output file
 			if !ok {
 				outputFileMap[absPathKey] = outputFile
+				exactAbsPaths[outputFile.AbsPath] = true
 				outputFiles[end] = outputFile
 				end++
 				continue
@@ -3247,6 +3249,14 @@ func (b *Bundle) Compile(log logger.Log, timer *helpers.Timer, mangleCache map[s
 			// need unique identity as they might need to have their own separate
 			// copies of internal state. See https://github.com/evanw/esbuild/issues/4411
 			if existingFile.CanBeMerged && outputFile.CanBeMerged && bytes.Equal(existingFile.Contents, outputFile.Contents) {
+				// Paths that only differ in case are different files on a case-
+				// sensitive file system, and the generated code refers to each one
+				// by its own name. So only filter out an exact duplicate.
+				if !exactAbsPaths[outputFile.AbsPath] {
+					exactAbsPaths[outputFile.AbsPath] = true
+					outputFiles[end] = outputFile
+					end++
+				}
 				continue
 			}
 
